@@ -335,6 +335,16 @@ func (s *Session) Hangup() {
 
 // Replies decodes everything the server wrote for the ops sent so far.
 func (s *Session) Replies() (reps []wire.Reply, stray int, malformed string) {
+	return s.replies(false)
+}
+
+// RepliesLenient is Replies with binary error replies accepted under any opaque.
+func (s *Session) RepliesLenient() (reps []wire.Reply) {
+	reps, _, _ = s.replies(true)
+	return reps
+}
+
+func (s *Session) replies(lenient bool) (reps []wire.Reply, stray int, malformed string) {
 	mk := s.marks.marks
 	if len(mk) <= len(s.Ops)+1 {
 		// the server asked for one request per request sent (plus the final read that met EOF):
@@ -348,7 +358,11 @@ func (s *Session) Replies() (reps []wire.Reply, stray int, malformed string) {
 				}
 				span = s.Cli.Out[mk[i]:end]
 			}
-			reps = append(reps, wire.DecodeSpan(s.W.Cfg.Proto, span, op))
+			if lenient {
+				reps = append(reps, wire.DecodeSpanLenient(s.W.Cfg.Proto, span, op))
+			} else {
+				reps = append(reps, wire.DecodeSpan(s.W.Cfg.Proto, span, op))
+			}
 		}
 		return reps, 0, ""
 	}
